@@ -26,6 +26,14 @@
  *          virtualdomains had already been opened by re-read (A) when the daemon was held (that re-read sees f1 for
  *          these and f2 for the others); <call> = the call it was held at, "none" = it made fewer than k+1 calls: then
  *          f2 and SIGHUP (B) came while it was blocked in select() again (mask 3).
+ *       J <k> <5 files f1> <call> <file> <idx>: FAILING re-read.  f1 is written, SIGHUP is delivered while the daemon is blocked
+ *          in select(), and the k-th gated call after the signal (k = 0: reread()'s chdir(auto_qmail); then open_read / read /
+ *          close of control_readfile(); last: chdir("queue")) FAILS: chdir and open_read with EACCES, read with EIO, close
+ *          closes and reports EIO; a sleep(10) before a retry (chdir("queue")) is not slept.  <call> = chdir | open_read |
+ *          read | close | chdir_queue | none (reread() made fewer calls), <file> = the control file it belongs to, <idx> =
+ *          how many reads of that file had succeeded before.  The step ends when the daemon is idle in select() again.
+ *   Z <k> <me> <env> <locals> <ph> <vdoms> <started> <call> <file> <idx>   real main() started with the k-th gated call of
+ *          start-up (main()'s chdir(auto_qmail) ... getcontrols() ... chdir("queue")) failing in the same way
  *   D <me> <env> <locals> <ph> <vdoms> <started> <todo> <id> { C <chan> ok|badslot <fn> <sender> <recip> }   real main() with
  *          both spawners announcing concurrency 10: the delivery commands qmail-send wrote to the spawner pipes for this
  *          one message (del_start -> comm_write -> comm_do; VERP), channel 0 = local first, then channel 1 = remote
@@ -45,21 +53,36 @@
  * wrappers.  They change no argument and no result; when the parent has armed the gate, the forked daemon stops right
  * before its k-th such call, tells the parent and waits to be released (the parent edits the control files and sends
  * a real SIGHUP meanwhile: the daemon's own handler sighup() runs while it waits). */
-typedef struct { volatile int armed, k, count, mask, mask_at, reached, which; volatile pid_t pid; } gate_t;
+typedef struct { volatile int armed, k, count, mask, mask_at, reached, which; volatile pid_t pid;
+                 /* fault mode (J steps, Z lines): the k-th call FAILS instead of being held */
+                 volatile int mode, fired, curfile, rdidx, ffile, fidx, nosleep, slept; } gate_t;
 static gate_t *GT;
 static int gate_cr = -1, gate_cw = -1;   /* the child's ends: read "go", write "reached" */
-static const char *gate_names[] = { "none", "chdir", "open_read", "read", "close" };
-static void gate(int which) {
-  if (!GT || !GT->armed || getpid() != GT->pid) return;
-  if (GT->count++ != GT->k) return;
+static const char *gate_names[] = { "none", "chdir", "open_read", "read", "close", "chdir_queue" };
+static const char *ctl_names[] = { "-", "me", "envnoathost", "locals", "percenthack", "virtualdomains", "other" };
+static int ctl_id(const char *fn) {
+  if (!strcmp(fn, "control/me")) return 1;
+  if (!strcmp(fn, "control/envnoathost")) return 2;
+  if (!strcmp(fn, "control/locals")) return 3;
+  if (!strcmp(fn, "control/percenthack")) return 4;
+  if (!strcmp(fn, "control/virtualdomains")) return 5;
+  return 6;
+}
+/* returns 1 when this call must fail (fault mode) */
+static int gate(int which) {
+  if (!GT || !GT->armed || getpid() != GT->pid) return 0;
+  if (GT->count++ != GT->k) return 0;
   GT->armed = 0; GT->mask_at = GT->mask; GT->which = which; GT->reached = 1;
+  if (GT->mode == 1) { GT->fired = 1; GT->ffile = (which == 1 || which == 5) ? 0 : GT->curfile; GT->fidx = GT->rdidx; GT->nosleep = 1; return 1; }
   char c = 'r';
-  if (write(gate_cw, &c, 1) != 1) return;
+  if (write(gate_cw, &c, 1) != 1) return 0;
   while (read(gate_cr, &c, 1) == -1 && errno == EINTR) ;
+  return 0;
 }
 extern int open_read();
 static int c10_open_read(char *fn) {
-  gate(2);
+  if (GT && GT->pid == getpid()) { GT->curfile = ctl_id(fn); GT->rdidx = 0; }
+  if (gate(2)) { errno = EACCES; return -1; }              /* an error other than ENOENT */
   int r = open_read(fn);
   if (GT && GT->pid == getpid()) { int e = errno;
     if (!strcmp(fn, "control/locals")) GT->mask |= 1;
@@ -67,9 +90,26 @@ static int c10_open_read(char *fn) {
     errno = e; }
   return r;
 }
-static ssize_t c10_read(int fd, void *b, size_t n) { gate(3); return read(fd, b, n); }
-static int c10_close(int fd) { gate(4); return close(fd); }
-static int c10_chdir(const char *d) { gate(1); return chdir(d); }
+static ssize_t c10_read(int fd, void *b, size_t n) {
+  if (gate(3)) { errno = EIO; return -1; }
+  ssize_t r = read(fd, b, n);
+  if (GT && GT->pid == getpid()) { int e = errno; GT->rdidx++; errno = e; }
+  return r;
+}
+static int c10_close(int fd) { if (gate(4)) { close(fd); errno = EIO; return -1; } return close(fd); }
+static int c10_chdir(const char *d) {
+  int q = !strcmp(d, "queue");
+  if (gate(q ? 5 : 1)) { errno = EACCES; return -1; }
+  int r = chdir(d);
+  /* fault mode: the window ends once start-up / reread() is back in the queue directory */
+  if (q && GT && GT->pid == getpid() && GT->mode == 1) { int e = errno; GT->armed = 0; errno = e; }
+  return r;
+}
+/* `sleep(10)` after a failing call that is retried (chdir("queue") in reread(), nomem()): not slept in fault mode */
+static unsigned c10_sleep(unsigned n) {
+  if (GT && GT->pid == getpid() && GT->nosleep) { GT->nosleep = 0; GT->slept++; return 0; }
+  return sleep(n);
+}
 
 #define _exit(x) h_exit(x)
 #define main qmail_send_main
@@ -77,9 +117,11 @@ static int c10_chdir(const char *d) { gate(1); return chdir(d); }
 #define read c10_read
 #define close c10_close
 #define chdir c10_chdir
+#define sleep c10_sleep
 #include "control.c"
 #include "constmap.c"
 #include "qmail-send.c"
+#undef sleep
 #undef chdir
 #undef close
 #undef read
@@ -308,6 +350,7 @@ static int lrd[2] = { -1, -1 };          /* our read ends of the delivery comman
 
 /* fork the real main(); conc = what both spawners announce as their concurrency (0: nothing is ever delivered and
  * fd 1 / fd 3 are /dev/null).  returns the pid, *started = the daemon reached its idle select() */
+static int start_fault_k = -1;           /* Z lines: the k-th gated call of start-up fails */
 static pid_t launch(const files *F0, int conc, int *started) {
   int p1[2] = { -1, -1 }, p3[2] = { -1, -1 }, p2[2], p4[2], p5[2], p6[2], gp[2], gq[2];
   char path[4600];
@@ -330,6 +373,10 @@ static pid_t launch(const files *F0, int conc, int *started) {
     h_exit_armed = 0;
     meok = 0; me.len = 0;               /* control.c statics dirtied by the in-process cases: as in a fresh process */
     envnoathost.len = percenthack.len = locals.len = vdoms.len = newlocals.len = newvdoms.len = 0;   /* likewise */
+    if (start_fault_k >= 0 && GT) {
+      GT->k = start_fault_k; GT->count = 0; GT->mask = 0; GT->fired = 0; GT->which = 0; GT->curfile = 0; GT->rdidx = 0;
+      GT->ffile = 0; GT->fidx = 0; GT->nosleep = 0; GT->slept = 0; GT->mode = 1; GT->pid = getpid(); GT->armed = 1;
+    }
     qmail_send_main();
     _exit(99);
   }
@@ -418,7 +465,23 @@ static void do_S(const files *F0, step *st, int nst) {
   for (int k = 0; started && k < nst; k++) {
     step *s = &st[k];
     /* a sweep group (I k=0; M; I k=1; M; ...) ends with the first I step whose k is past the daemon's last call */
-    if (s->grp && s->grp == endgrp && (skipping || s->kind == 'I')) { skipping = 1; continue; }
+    if (s->grp && s->grp == endgrp && (skipping || s->kind == 'I' || s->kind == 'J')) { skipping = 1; continue; }
+    if (s->kind == 'J') {
+      /* failing re-read: f1 written, SIGHUP in select(), the k-th call of reread() fails (open_read: EACCES, read: EIO,
+       * chdir: EACCES, close: closed but EIO), daemon idle again */
+      write_files(&s->F);
+      fprintf(h_out, " J %d", s->k); out_files(&s->F);
+      GT->k = s->k; GT->count = 0; GT->mask = 0; GT->mask_at = 0; GT->reached = 0; GT->which = 0; GT->fired = 0;
+      GT->curfile = 0; GT->rdidx = 0; GT->ffile = 0; GT->fidx = 0; GT->nosleep = 0; GT->slept = 0; GT->mode = 1; GT->pid = pid;
+      GT->armed = 1;
+      kill(pid, SIGHUP);
+      int ok = service(pid, 0, 20.0);
+      GT->armed = 0; GT->mode = 0;
+      if (!ok) { started = 0; break; }
+      fprintf(h_out, " %s %s %d", gate_names[GT->fired ? GT->which : 0], ctl_names[GT->fired ? GT->ffile : 0], GT->fired ? GT->fidx : 0);
+      if (!GT->fired && s->grp) endgrp = s->grp;
+      continue;
+    }
     if (s->kind == 'I') {
       write_files(&s->F);
       fprintf(h_out, " I %d", s->k); out_files(&s->F); out_files(&s->F2);
@@ -469,6 +532,21 @@ static void do_S(const files *F0, step *st, int nst) {
   fputc('\n', h_out);
   finish(pid);
 }
+
+/* Z: start-up with the k-th gated call (chdir / open_read / read / close, from main()'s chdir(auto_qmail) to its
+ * chdir("queue")) failing */
+static void do_Z(const files *F0, int k) {
+  int started;
+  start_fault_k = k;
+  pid_t pid = launch(F0, 0, &started);
+  start_fault_k = -1;
+  int fired = GT->fired, which = GT->which, ffile = GT->ffile, fidx = GT->fidx;
+  GT->armed = 0; GT->mode = 0;
+  fprintf(h_out, "Z %d", k); out_files(F0);
+  fprintf(h_out, " %d %s %s %d\n", started, gate_names[fired ? which : 0], ctl_names[fired ? ffile : 0], fired ? fidx : 0);
+  finish(pid);
+}
+static int last_Z_fired(void) { return GT->fired; }
 
 static void rec_hex(hbuf *b, const unsigned char *p, size_t n) {
   badd(b, " ", 1);
@@ -892,11 +970,12 @@ static void stdin_mode(void) {
       hbuf_reset(&dt); int n = unhex(tok[7], a); badd(&dt, a, n);
       do_D(&SF, &dt);
     }
+    else if (!strcmp(tok[0], "Z") && nt >= 7) { for (int i = 0; i < NF; i++) set_file(&SF, i, tok[2 + i]); do_Z(&SF, atoi(tok[1])); }
     else if (!strcmp(tok[0], "S") && nt >= 6) {
       for (int i = 0; i < NF; i++) set_file(&SF, i, tok[1 + i]);
       int ns = 0, i = 6;
       /* optional "<started> <n>" copied from an output line */
-#define ISSTEP(t) (!strcmp(t, "M") || !strcmp(t, "H") || !strcmp(t, "E") || !strcmp(t, "I"))
+#define ISSTEP(t) (!strcmp(t, "M") || !strcmp(t, "H") || !strcmp(t, "E") || !strcmp(t, "I") || !strcmp(t, "J"))
       while (i < nt && !ISSTEP(tok[i])) i++;
       while (i < nt && ns < NSTEPS) {
         step *s = &steps[ns];
@@ -908,6 +987,10 @@ static void stdin_mode(void) {
           s->kind = 'I'; s->k = atoi(tok[i + 1]);
           for (int j = 0; j < NF; j++) { set_file(&s->F, j, tok[i + 2 + j]); set_file(&s->F2, j, tok[i + 2 + NF + j]); }
           ns++; i += 2 + 2 * NF; while (i < nt && !ISSTEP(tok[i])) i++;
+        } else if (!strcmp(tok[i], "J") && i + 1 + NF < nt + 0) {
+          s->kind = 'J'; s->k = atoi(tok[i + 1]);
+          for (int j = 0; j < NF; j++) set_file(&s->F, j, tok[i + 2 + j]);
+          ns++; i += 2 + NF; while (i < nt && !ISSTEP(tok[i])) i++;
         } else if ((!strcmp(tok[i], "H") || !strcmp(tok[i], "E")) && i + NF < nt + 0) {
           s->kind = tok[i][0]; for (int j = 0; j < NF; j++) set_file(&s->F, j, tok[i + 1 + j]); ns++; i += 1 + NF;
         } else break;
@@ -1295,6 +1378,75 @@ int main(int argc, char **argv) {
       ns++;
     }
     do_S(&F, steps, ns);
+  }
+  amode = 0;
+
+  /* (16) seeded, own stream: FAILING re-reads, at every call index.  One daemon per scenario; a sweep of pairs (J k; M)
+   * for k = 0, 1, 2, ... until k is past the last call of reread(): fresh files f1 (a pool domain newly listed in locals,
+   * a new virtualdomains entry; now and then padded with comment lines beyond one or two 64-byte reads) are written and
+   * HUPed, the k-th call fails; the message probes every pool domain: when the error struck the re-read the OLD tables -
+   * both of them - must still be in force, otherwise f1's.  Every third pair is followed by an undisturbed HUP (same files). */
+  h_seed(seed * 1000003ull + 17 * shard + 1500007);
+  int njscen = nscen / 16 + 2;
+  for (int c = 0; c < njscen; c++) {
+    if ((c % nshards) != shard) continue;
+    amode = (c / nshards) & 1;
+    gen_files(&F, 1);
+    if (!F.present[0] && !F.present[2]) F.present[2] = 1;
+    int ns = 0;
+    if (h_below(2)) { steps[ns].kind = 'M'; steps[ns].grp = 0; gen_todo(&steps[ns].todo); ns++; }
+    for (int q = 0; q < 22 && ns + 4 < NSTEPS; q++) {
+      step *s = &steps[ns];
+      s->kind = 'J'; s->grp = 1; s->k = q;
+      gen_files(&s->F, 0);
+      if (h_below(8)) s->F.present[2] = 1;                  /* mostly a locals file (absent + me: the default) */
+      if (!s->F.present[0] && !s->F.present[2]) s->F.present[2] = 1;
+      { char l[100]; snprintf(l, sizeof l, "%s\n", pick_dom()); randcase(l, 15);
+        if (s->F.present[2]) { ensure_nl(&s->F.b[2]); badd(&s->F.b[2], l, strlen(l)); } }
+      if (h_below(3)) { char l[160]; snprintf(l, sizeof l, "%s:%s\n", pick_dom(), h_below(5) ? pick_tag() : "");
+        s->F.present[4] = 1; ensure_nl(&s->F.b[4]); badd(&s->F.b[4], l, strlen(l)); }
+      for (int w = 2; w <= 4; w += 2) if (s->F.present[w] && h_below(3) == 0) {   /* longer than one / two reads */
+        int nl = 1 + h_below(4);
+        for (int j = 0; j < nl; j++) { char l[80]; int n = 20 + h_below(50); l[0] = '#'; for (int t = 1; t < n; t++) l[t] = 'x'; l[n] = '\n';
+          ensure_nl(&s->F.b[w]); badd(&s->F.b[w], l, n + 1); }
+        if (h_below(2)) { char l[100]; snprintf(l, sizeof l, w == 2 ? "%s\n" : "%s:late\n", pick_dom()); badd(&s->F.b[w], l, strlen(l)); }
+      }
+      ns++;
+      s = &steps[ns]; s->kind = 'M'; s->grp = 1; gen_todo(&s->todo);
+      for (int d = 0; d < NPOOL; d++) {
+        char tt[120]; snprintf(tt, sizeof tt, "T%s@%s", pick_user(), pool[d]);
+        if (h_below(4) == 0) randcase(tt + 1, 30);
+        badd(&s->todo, tt, strlen(tt) + 1);
+      }
+      ns++;
+      if (q % 3 == 2 && ns + 4 < NSTEPS) {
+        copy_files(&steps[ns].F, &steps[ns - 2].F); steps[ns].kind = 'H'; steps[ns].grp = 1; ns++;
+        s = &steps[ns]; s->kind = 'M'; s->grp = 1; gen_todo(&s->todo); ns++;
+      }
+    }
+    do_S(&F, steps, ns);
+  }
+  amode = 0;
+
+  /* (17) seeded, own stream: FAILING start-up, at every call index: for each configuration the daemon is started with
+   * its k-th gated call failing, k = 0, 1, 2, ... until k is past main()'s chdir("queue") */
+  h_seed(seed * 1000003ull + 17 * shard + 1700011);
+  int nzscen = nscen / 32 + 2;
+  for (int c = 0; c < nzscen; c++) {
+    if ((c % nshards) != shard) continue;
+    amode = (c / nshards) & 1;
+    gen_files(&F, 1);
+    if (h_below(6)) { if (!F.present[0] && !F.present[2]) F.present[2] = 1; }
+    if (h_below(3) == 0 && F.present[2]) {
+      int nl = 1 + h_below(4);
+      for (int j = 0; j < nl; j++) { char l[80]; int n = 20 + h_below(50); l[0] = '#'; for (int t = 1; t < n; t++) l[t] = 'x'; l[n] = '\n';
+        ensure_nl(&F.b[2]); badd(&F.b[2], l, n + 1); }
+    }
+    if (h_below(4) == 0 && F.present[0]) {                   /* control/me with a long first line / several lines */
+      int n = 40 + h_below(120); char l[200]; for (int t = 0; t < n; t++) l[t] = 'm'; l[n] = '\n';
+      hbuf_reset(&F.b[0]); badd(&F.b[0], l, n + 1); if (h_below(2)) badd(&F.b[0], "second line\n", 12);
+    }
+    for (int k = 0; k < 60; k++) { do_Z(&F, k); if (!last_Z_fired()) break; }
   }
   amode = 0;
   fflush(h_out);
